@@ -961,6 +961,8 @@ def zval_method(I, v, name, args, kwargs, node):
             r = z3.IndexOf(v.t, z3.Unit(unwrap(ty.elem, args[0])), z3.IntVal(0))
             I.check_or_raise(r >= 0, ValueError, "list.index", node)
             return SInt(r)
+        if name == "pop" and len(args) == 1 and concrete_int(as_int(args[0])) == -1:
+            args = []
         if name == "pop" and not args:
             n = z3.Length(v.t)
             I.check_or_raise(n > 0, IndexError, "pop from empty list", node)
